@@ -5,16 +5,73 @@ CFG = {
     "hooks": True,
     "theorems": [
         "Leptos.RView.C04_settles",
+        "Leptos.RView.C04_settles_leaves",
+        "Leptos.RView.C04_untouched_nodes",
+        "Leptos.RView.C04_show_no_rerender_same_branch",
         "Leptos.RView.C04_disposed_stays_empty",
+        "Leptos.RView.C04_set_touches_nothing",
+        # the lemmas the three property theorems stand on
+        "Leptos.RView.InvD.run",
+        "Leptos.RView.InvC.settled",
+        "Leptos.RView.InvC.poll",
+        "Leptos.RView.InvC.run",
+        "Leptos.RView.InvC.dead",
+        "Leptos.RView.rerunIn_spec",
+        "Leptos.RView.rerunZombies_spec",
+        "Leptos.RView.rebuild_spec",
+        "Leptos.RView.replace_spec",
+        "Leptos.RView.Inv1.run",
+        "Leptos.RView.Inv0.settled",
+        "Leptos.RView.poll_res",
+        "Leptos.RView.build_spec",
+        "Leptos.RView.newEff_spec",
+        "Leptos.RView.runEffBody_sig",
+        "Leptos.RView.evalE_sig",
+        "Leptos.RView.setSignal_eff",
+        "Leptos.RView.Good.serialize_eq",
+        "Leptos.RView.Quiet.steps",
+        "Leptos.RView.rerunIn_nodes",
+        "Leptos.RView.show_poll_same",
+        "Leptos.RView.memo_recompute",
+        "Leptos.RView.step_disposed",
     ],
     "harness_pkg": "hx-c04",
     "harness_bin": "c04",
     "n": {"quick": 20000, "thorough": 400000},
     "trivial_tags": ["plain"],
-    "rule": "",
-    "trusted": [],
-    "modelled": [],
-    "assumptions": [],
+    "rule": "programs as data: 1-4 signals, 0-2 memos (memo-of-memo and the memo-then-its-source shape included), a view tree of depth <= 3 over "
+            "{static text, (), element with static / reactive attribute / class / style, tuple, move|| text, move|| Either, <Show>, <For> over "
+            "signal-selected key lists (3/4 order-preserving families, 1/4 random permutations)}, a tenth of the cases with <Suspense> (over an "
+            "AsyncDerived of signals, executor run to idle between writes) or <ErrorBoundary> at the top of the view (implementation-side oracle only, "
+            "the model prints `skip`); histories of 3-15 writes with `poll i` (1-3 polls of the i-th ready task) or `idle` or nothing in between, a sixth "
+            "with a disposal in the middle; plus EXHAUSTIVE schedules: 12 small programs x every poll sequence of length <= 3 over ready indices 0..2 "
+            "(40 schedules, applied after each of 3 rounds of writes, forwards and backwards) = 480 cases; the REAL leptos Show/For/Either/closures "
+            "mounted with mount_to_renderer into the native DOM on the harness executor; observable at EVERY op line = ready list + the whole DOM with "
+            "node ids (renumbered by first appearance) and mutation counters; distinct = distinct op lines of a case; non-trivial = the view has a dynamic part",
+    "trusted": [
+        "hooks/native_dom.patch: tachys::renderer::native_dom (in-memory DOM, mutation counters) standing in for the browser DOM",
+        "hx_common::sched (controlled executor) standing in for wasm-bindgen-futures' microtask queue: every interleaving of task polls is a schedule",
+        "AnyView / Vec<AnyAttribute> type erasure used to realise view programs given as data (rebuild delegates to the typed rebuild when the TypeId matches, which it always does here)",
+        "the canonicaliser compares `class` as a token set, `style` as a declaration map and attributes as a map (a removed class leaves class=\"\", attribute order depends on history)",
+    ],
+    "modelled": [
+        "impl Render for F: ReactiveFunction (RenderEffect::new(|prev| rebuild-or-build), F::rebuild = build new + insert_before_this + unmount old)",
+        "reactive attribute / class (&str, F) / style (&str, F): build, rebuild (RenderEffect::new_with_value over the taken state)",
+        "RenderEffect::new_with_value_erased (first run synchronous, then spawn; task loop; value Arc kept alive by the task until it ends)",
+        "Either::{build, rebuild}, leptos Show (ArcMemo over the boolean + Either), leptos For (keyed(..) = Leptos.Keyed.rebuild), String / () / HtmlElement / tuple build and rebuild",
+        "mount_to_renderer / UnmountHandle drop",
+        "NOT modelled (implementation-side oracle only): Suspense, ErrorBoundary; not exercised: Transition, OwnedView contexts, hydration",
+    ],
+    "assumptions": [
+        "expressions of dynamic parts are pure functions of signals and memos (tracked reads only, no writes): the harness interprets them inside real closures",
+        "attribute sources of one element have pairwise different names; key lists of a <For> are duplicate-free; rows of a <For> are static",
+        "C04_settles is proved unconditionally (every history, every schedule, disposal included) for views made of static structure, dynamic leaves "
+        "(text, attribute, class, style) and `move || Either` nested arbitrarily, all over signals; C04_untouched_nodes for the same without Either; "
+        "for Show / For and for parts reading memos the full statement C04_settles_full is kept as an OPEN def and covered by correspondence "
+        "(0 disagreements with the model on every generated history)",
+        "C04_show_no_rerender_same_branch is proved for every state satisfying the explicit local pre-state ShowPre (what a write to a signal of the condition produces), "
+        "with a kernel-checked reachable instance; it is not (yet) chained through an invariant over all reachable states of programs containing Show",
+    ],
     "manifest": {
         "category": "proof",
         "text": "",
